@@ -835,7 +835,8 @@ fn process_incoming_text_message<T: Read + Write>(
                                             &fc.all_msgs,
                                             stream,
                                             command,
-                                            params.split_once(' ').unwrap().1,
+                                            // a missing JSON body is answered with err: (from the JSON parser) instead of a panic
+                                            params.split_once(' ').map(|p| p.1).unwrap_or(""),
                                         ) {
                                             websocket
                                                 .write_message(Message::Text(format!(
